@@ -74,19 +74,14 @@ Proof. exact frame_format. Qed.
 
 (* a periodic task after ANY sequence of update(data) calls, for both flavours of bus task (with /
    without modify_data): the stored message and every message handed to the bus keep the id, the
-   remote flag, the frame format (extended iff id > 0x7FF) and carry the data of that update *)
+   remote flag, the frame format (extended iff id > 0x7FF) and carry the data of that update with
+   dlc = its length (call_ok) *)
 Theorem C10_periodic_update_format : forall modify period c data remote ds,
   Forall2 (fun d sc => frame_ok c remote (fst (fst sc)) /\ f_data (fst (fst sc)) = d /\
+                       snd (fst sc) = Z.of_nat (length d) /\
                        Forall (call_ok c remote d) (snd sc))
           ds (periodic_updates modify period (periodic_start c data remote) ds).
 Proof. exact periodic_update_format. Qed.
-
-(* observation (candidate defect, see notes/C10.md): update() assigns msg.data and python-can keeps
-   the old dlc, so after an update with a payload of another length dlc <> len(data) *)
-Theorem C10_periodic_update_dlc_stale : forall modify period c data ds,
-  Forall (fun sc => snd (fst sc) = Z.of_nat (length data))
-         (periodic_updates modify period (periodic_start c data false) ds).
-Proof. exact periodic_update_dlc_stale. Qed.
 
 Theorem C10_listener_filters : forall (f : frame) (s : net),
   (f_err f = true \/ f_remote f = true -> listener f s = (s, [])) /\
@@ -174,7 +169,7 @@ Proof. vm_compute. reflexivity. Qed.
 Example C10_nv_periodic_update :
   map (fun sc => (f_ext (fst (fst sc)), f_data (fst (fst sc)), snd (fst sc), length (snd sc)))
       (periodic_updates false 10 (periodic_start 291 [1; 2; 3] false) [[4; 5; 6; 7]; [4; 5; 6; 7]])
-  = [(false, [4; 5; 6; 7], 3, 2%nat); (false, [4; 5; 6; 7], 3, 0%nat)].
+  = [(false, [4; 5; 6; 7], 4, 2%nat); (false, [4; 5; 6; 7], 4, 0%nat)].
 Proof. vm_compute. reflexivity. Qed.
 
 Example C10_nv_scanner :
@@ -210,7 +205,6 @@ Print Assumptions C10_unregistered_not_subscribed.
 Print Assumptions C10_removed_node_silent.
 Print Assumptions C10_frame_format.
 Print Assumptions C10_periodic_update_format.
-Print Assumptions C10_periodic_update_dlc_stale.
 Print Assumptions C10_listener_filters.
 Print Assumptions C10_scanner_spec.
 Print Assumptions C10_scanner_is_reference.
